@@ -18,6 +18,10 @@ package store
 //@   ensures [loaded] res1 == nil ==> res0 != nil
 //@   modifies nothing
 
+//@ func NewJSONDataStore
+//@   safety
+//@   ensures [C09.ctor] (res1 == nil ==> res0 != nil && res0.path == path) && (res1 != nil ==> res0 == nil)
+
 //@ pure dataPath(j *JsonDataStore) string = pathJoin(j.path, "data.json")
 //@ pure published(j *JsonDataStore) bool = $fsState[dataPath(j)] == 0 || $fsState[dataPath(j)] == 2
 
